@@ -231,6 +231,26 @@ def run(tier, seed, replay=None):
     rep.assumptions = ["POSIX rename atomicity", "a crash loses any unflushed tail of an open file"]
     depth = 3 if tier == "quick" else 5
     t0 = time.time()
+    if replay:
+        # replay one recorded crash history on the real function and report the directory it leaves
+        r = json.load(open(replay))["replay"]
+        pu, Parameter = _impl()
+        tmp = os.path.join(C.WORKROOT, PID, "fs_replay")
+        shutil.rmtree(tmp, ignore_errors=True)
+        os.makedirs(tmp)
+        c0 = r.get("start_version", 5)
+        files, _, _, _ = attempt(pu, Parameter, tmp, {}, c0, None)
+        files = {"ckpt.json": files["ckpt.json"]}
+        for d, e in enumerate(r["crash_events"]):
+            _, _, events, _ = attempt(pu, Parameter, tmp, files, c0 + d + 1, None)
+            files, k, _, oc = attempt(pu, Parameter, tmp, files, c0 + d + 1, None if e >= len(events) else e)
+            C.log(f"[C18 replay] write {d + 1}: crash before event {e} ({oc}) -> {observe(files)[0]}")
+        obs, extra = observe(files)
+        ok = good(c0, obs) and not extra
+        C.log(f"[C18 replay] final directory name/old/new = {obs}: {'property holds' if ok else 'PROPERTY VIOLATED'}")
+        if not ok:
+            print(f"VIOLATION property={PID} replay={replay}")
+        return 0 if ok else 1
     hist, c0 = enumerate_histories(depth)
     rep.timings["impl_enumeration"] = round(time.time() - t0, 2)
 
